@@ -123,6 +123,16 @@ def Drawn.append (a b : Drawn) : Drawn := ⟨a.contours ++ b.contours, a.comps +
 def drawContours (reverseFlipped : Bool) (t : Affine) (cs : List Contour) : List Contour :=
   cs.map (fun c => Contour.map t (if reverseFlipped && decide (t.det < 0) then reverseContour c else c))
 
+/-- `self.include is None or baseGlyphName in self.include` -/
+def isIncluded (incl : Option (List String)) (base : String) : Bool :=
+  match incl with | none => true | some l => l.contains base
+
+/-- `if self.decomposeNested and self.include: self.include = None` (a non-empty set is truthy) -/
+def inclNested (nested : Bool) (incl : Option (List String)) : Option (List String) :=
+  match incl with
+  | some l => if nested && !l.isEmpty then none else some l
+  | none => none
+
 mutual
 /-- `DecomposingFilterPointPen.addComponent(base, T)`; `incl = none` ⇔ include is None -/
 def addComp (fuel : Nat) (gs : GlyphSet) (reverseFlipped nested : Bool) (incl : Option (List String))
@@ -130,16 +140,11 @@ def addComp (fuel : Nat) (gs : GlyphSet) (reverseFlipped nested : Bool) (incl : 
   match fuel with
   | 0 => .error .recursion
   | fuel + 1 =>
-    let included := match incl with | none => true | some l => l.contains base
-    if included then
-      -- `if self.decomposeNested and self.include: self.include = None`
-      let incl' := match incl with
-        | some l => if nested && !l.isEmpty then none else some l
-        | none => none
+    if isIncluded incl base then
       match gs.get? base with
       | none => .error (.missing base)
       | some b =>
-        match addComps fuel gs reverseFlipped nested incl' t b.comps with
+        match addComps fuel gs reverseFlipped nested (inclNested nested incl) t b.comps with
         | .error e => .error e
         | .ok d => .ok ⟨drawContours reverseFlipped t b.contours ++ d.contours, d.comps⟩
     else .ok ⟨[], [⟨base, t⟩]⟩
